@@ -282,8 +282,8 @@ func RunC09(r *sim.Run) {
 				case "default":
 					violated("unlimited_fallback", "default", "schema %s: request admitted by the default (unlimited) limiter", s.name)
 				}
-				if total > int(s.global) && !r.Violated() {
-					violated("instance_total_exceeds_global", "remote+local", "schema %s (%s, local %d, global %d): %d requests in flight on this instance: %d admitted by the server-controlled limiter and %d by the local limiter (requests admitted by one limiter object are invisible to the other after a readiness change)",
+				if total > int(s.global) {
+					r.Finding("instance_total_exceeds_global", "remote+local", "schema %s (%s, local %d, global %d): %d requests in flight on this instance: %d admitted by the server-controlled limiter and %d by the local limiter (requests admitted by one limiter object are invisible to the other after a readiness change)",
 						s.name, s.strategy, s.local, s.global, total, nRemote, nLocal)
 				}
 			}
